@@ -259,6 +259,7 @@ static Song songN(uint64_t idx, int ntracks, int n) {
 } // namespace
 
 #include "seq_sem_c08c09.inc"
+#include "seq_sem_c17.inc"
 
 int main(int argc, char **argv) {
     en::Args a = en::parse_args(argc, argv);
@@ -291,6 +292,7 @@ int main(int argc, char **argv) {
           en::Family F; F.name = "three_tracks"; F.count = per * per * per * 3 * 3; F.chunk = 128; F.budget_s = 30; F.describe = "every format-1 file with 3 tracks of up to 1 event each x lone End-of-Track position x driver {self-fed, 1 ms, play 1024}";
           F.run = [per](uint64_t i, en::CaseOut &o) { uint64_t f = i % (per * per * per * 3); int drv = (int)(i / (per * per * per * 3)); Song s = songN(f, 3, 1); Cfg c; c.driver = drv; check_c07(s, c, o); };
           fams.push_back(F); }
-    } else add_c08_c09_families(fams, thorough);
+    } else if(g_prop == "C17") add_c17_families(fams, thorough);
+    else add_c08_c09_families(fams, thorough);
     return en::run_main(argc, argv, g_prop.c_str(), fams, TAGS, "non-trivial: the file loaded and the complete delivered stream was compared with the reference interpreter");
 }
